@@ -4,6 +4,9 @@ Static clauses:
   F-NORM    name normalisation agrees: the lowering lower-cases every parameter / party / env name it puts into the IR
             (rule F-NORM of C06); every key the TII emitter publishes for those names (params schema, env schema, parties,
             profile values) must pass through the same normalisation, and the request parser looks names up verbatim
+  F-REQUIRES the traversals through which an IR reports the keys it requires (find_params -> Apply::params over
+            Composite::components) visit every component of every IR node (rule T1 of C06 restricted to those methods): a key
+            the interface declares for a construct in a burn block, a reference, .. is then also reported by the embedded IR
   F-EMBED   the IR embedded for transaction T is to_bytes(ws.tir(T.name)) - the IR Workspace::lower stored under that name -
             with the version string returned by the same to_bytes call
   WIRE      decode(embedded bytes) is structurally the lowered IR (rule WIRE of C11, re-run here)
